@@ -7,45 +7,11 @@
 (* source in one dimension exactly; Resizer::resize with                   *)
 (* fit_into_destination must succeed.                                      *)
 (***************************************************************************)
-EXTENDS Geometry, TLC, Json, IOUtils
+EXTENDS FitJudge, TLC, Json, IOUtils
 
 Rec == ndJsonDeserialize(IOEnv.TRACE)
 VARIABLES l, nbad
 vars == <<l, nbad>>
-
-K == 50      \* relative tolerance 2^-50 (four f64 roundings of slack)
-
-FitJudge(e) ==
-    LET c == e.echo
-        sw == c.sw  sh == c.sh  dw == c.dw  dh == c.dh
-        c1 == Clamp01(c.cx[1], c.cx[2])
-        c2 == Clamp01(c.cy[1], c.cy[2])
-        lhs == Mul(FromInt(sw), FromInt(dh))          \* sw*dh
-        rhs == Mul(FromInt(dw), FromInt(sh))          \* dw*sh
-        wider == Le(rhs, lhs)
-        equal == lhs = rhs
-        fin == \A i \in 1 .. 4 : IsFinite(e.box[i])
-        L == DyOf(e.box[1])  T == DyOf(e.box[2])  Wd == DyOf(e.box[3])  Ht == DyOf(e.box[4])
-        SW == DyFromInt(sw)  SH == DyFromInt(sh)
-        marginX == DySub(SW, Wd)
-        marginY == DySub(SH, Ht)
-    IN  IF e.ret # "ok" THEN "panic"
-        ELSE IF ~fin THEN "non-finite"
-        ELSE IF L.s < 0 \/ T.s < 0 \/ Wd.s <= 0 \/ Ht.s <= 0 THEN "negative-or-empty"
-        \* inside the source as the library's own validation computes it (f64 sum, round to nearest even),
-        \* and never further out than one rounding error of the exact sum
-        ELSE IF ~DyLe(DyAddF64(L, Wd), SW) \/ ~DyLe(DyAddF64(T, Ht), SH) THEN "outside-source"
-        ELSE IF ~DyWithin(DySub(DyAdd(L, Wd), DyAddF64(L, Wd)), 52, SW) \/ ~DyWithin(DySub(DyAdd(T, Ht), DyAddF64(T, Ht)), 52, SH) THEN "outside-source-beyond-rounding"
-        ELSE IF equal /\ ~(L.s = 0 /\ T.s = 0 /\ DyEq(Wd, SW) /\ DyEq(Ht, SH)) THEN "equal-ratio-not-full"
-        ELSE IF ~(DyEq(Wd, SW) \/ DyEq(Ht, SH)) THEN "not-full-in-any-dimension"
-        ELSE IF wider /\ ~(DyEq(Ht, SH) /\ T.s = 0) THEN "wrong-branch"
-        ELSE IF ~wider /\ ~(DyEq(Wd, SW) /\ L.s = 0) THEN "wrong-branch"
-        \* aspect: Wd * dh = Ht * dw up to rounding
-        ELSE IF ~DyWithin(DySub(DyMulInt(Wd, dh), DyMulInt(Ht, dw)), K, DyMulInt(Ht, dw)) THEN "aspect"
-        \* centering: L * q = (sw - Wd) * n up to rounding
-        ELSE IF ~DyWithin(DySub(DyMulInt(L, c1[2]), DyMulInt(marginX, c1[1])), K, DyMulInt(marginX, c1[1])) THEN "centering-x"
-        ELSE IF ~DyWithin(DySub(DyMulInt(T, c2[2]), DyMulInt(marginY, c2[1])), K, DyMulInt(marginY, c2[1])) THEN "centering-y"
-        ELSE "ok"
 
 Judge(e) ==
     CASE e.op = "fitcrop" -> FitJudge(e)
